@@ -34,7 +34,7 @@ CONFIG = {
     "thorough": {"shards": 32, "d2_sample": -1, "d3_sample": 2000, "layouts_per_ann": 99, "watchdog_s": 3400},
 }
 
-LAYOUTS = ["single", "inherit", "override_prop", "override_child", "noninit", "flags", "none_default", "override_none_default", "multi_base_empty", "self_ref"]
+LAYOUTS = ["single", "inherit", "override_prop", "override_child", "noninit", "flags", "none_default", "override_none_default", "multi_base_empty", "self_ref", "plain_mixin_after_base"]
 
 
 def spellings_for(a):
@@ -68,6 +68,14 @@ def class_sources(P, k, a, layout, spelling):
     if layout == "self_ref":
         # the class refers to itself in another field (quoted): its annotations cannot be checked at definition time
         return [(T, f"{deco}class {T}(ASTNode):\n    x: {ann} = {dflt}\n    nxt: '{T} | None' = None\n    y: int = 0\n", True)]
+    if layout == "plain_mixin_after_base":
+        # the field comes from a plain (non-node) dataclass mixin listed after the node base: its fields are the first
+        # fields of the class, before the built-in ones
+        M = f"{P}M{k}"
+        return [
+            (M, f"{deco}class {M}:\n    x: {ann} = {dflt}\n    w: int = 0\n", False),
+            (T, f"{deco}class {T}(ASTNode, {M}):\n    y: int = 0\n", True),
+        ]
     if layout == "multi_base_empty":
         # the field comes from the *second* base of a class that declares nothing itself
         B2 = f"{P}C{k}"
